@@ -146,6 +146,19 @@ def impl(case):
     else:
         out["results_independent"] = True
     out["forms_same_effect"] = app(p_bld) == app(p_re) == app(p_text) == out["apply"]
+    # documents given as JSON TEXT: equal texts are equal documents, every application starts from a fresh one
+    if isinstance(case["doc"], (dict, list)):
+        jtxt = json.dumps(case["doc"])
+
+        def app_text(p):
+            try:
+                return ["ok", SX.canon(p.apply(jtxt))]
+            except Exception as e:  # noqa: BLE001
+                return ["err", exc_name(e)]
+        t1, t2, t3 = app_text(p_doc), app_text(p_doc), app_text(p_re)
+        if not (t1 == t2 == t3 == out["apply"]):
+            out["forms_same_effect"] = False
+            out["text_document_counterexample"] = {"first": t1, "second": t2, "reloaded": t3, "value": out["apply"]}
     ra = rel_applicable(case)
     if ra is not None:
         try:
